@@ -3,7 +3,8 @@
 # about half an hour) or x every quick check (all; several hours), on scratch worktrees (tools/try_wt.sh),
 # N lanes in parallel; writes seeded/MATRIX.json. Sanitizer lanes are skipped (VERIF_NO_LANES=1) except
 # for seeds named S* which exist to exercise them. Scratch trees are kept between runs only while running.
-cd /verif
+ROOT="$(cd "$(dirname "$0")/.." && pwd)"; export VERIF_SRC="$ROOT"
+cd "$ROOT"
 N=${1:-4}
 MODE=${2:-own}
 ALL="C01 C02 C03 C04 C05 C06 C07 C08 C09 C10 C11 C12 C13 C14 C15 C16 C17 C18 C19 C20"
@@ -35,10 +36,10 @@ for f in sorted(glob.glob('/tmp/mxres/*.txt')):
         if rc==1:
             caught.append(cid); sig[cid]=parts[2] if len(parts)>2 else ''
         elif rc!=0: inc.append(cid)
-    meta=json.load(open(f'/verif/seeded/{s}/meta.json'))
+    meta=json.load(open(os.path.join(os.environ['VERIF_SRC'],'seeded',s,'meta.json')))
     m[s]={'property':meta.get('property'),'caught_by':caught,'inconclusive':inc,'first_signature':sig,'summary':meta.get('summary','')[:300]}
 import sys
-json.dump({'mode': os.environ.get('MATRIX_MODE','own'), 'seeds': m},open('/verif/seeded/MATRIX.json','w'),indent=1)
+json.dump({'mode': os.environ.get('MATRIX_MODE','own'), 'seeds': m},open(os.path.join(os.environ['VERIF_SRC'],'seeded','MATRIX.json'),'w'),indent=1)
 missed=[s for s,v in m.items() if v['property'] not in v['caught_by']]
 print('seeds',len(m),'not caught by own check:',missed)
 P
